@@ -621,6 +621,8 @@ class Interp(ExprMixin, LoopMixin, CallMixin):
             self.note_unknown(st, f'assignment target {type(target).__name__}')
 
     def unpack(self, v, n, node):
+        if isinstance(v, GenCallV):
+            v = self.drain_generator(v, node)
         if isinstance(v, TupleV) and len(v.items) == n:
             return v.items
         if isinstance(v, ListV) and v.items is not None and len(v.items) == n:
